@@ -440,6 +440,7 @@ def r4_run_if(report, repo):
                 'although run_if was falsy or raised')
       r = p.last_return().value
       first = r.elts[0] if isinstance(r, ast.Tuple) else r
+      first = cfgm.path_resolve(p, first, before_index=len(p.steps) - 1)
       if via_handler:
         ok = isinstance(first, ast.Call) and any(
             isinstance(x, ast.Call) and last_attr(x) == 'ExceptionInfo'
